@@ -439,6 +439,23 @@ def check_no_internal(ctx, case, r):
     return False
 
 
+def model_call17(ctx, form, root="data"):
+    """the row model with the repaired validation order (driver op `c17.model`, Pyxv.Rows17.formOut17)"""
+    rows = [formobs.canon_cells(x) for x in form["survey"]]
+    lists = sorted({x.get("list_name", x.get("list name", "")) for x in form.get("choices", [])})
+    settings = formobs.canon_cells(form["settings"][0]) if form.get("settings") else []
+    for k, v in settings:
+        if k == "name":
+            root = v
+    return ctx.driver.call("c17.model", rows=rows, lists=lists, settings=settings, root=root)
+
+
+def err_matches17(model_err, msg):
+    if model_err["kind"] == "emptySection":
+        return "has no questions or groups" in msg and f"'{model_err['name']}'" in msg
+    return formcommon.err_matches(model_err, msg)
+
+
 def catalogue_case(ctx, case):
     """one mutated form: implementation, oracle, model correspondence"""
     form, expect = case["form"], case["expect"]
@@ -455,7 +472,7 @@ def catalogue_case(ctx, case):
         if not ok:
             ctx.fail(Failure("not-located", f"mutation {mid} at {case['site']}: message {why}: {r['msg'][:200]!r}", case, extra=extra))
     if expect.get("model") and case.get("via", "dict") == "dict":
-        m = formcommon.model_call(ctx, form)
+        m = model_call17(ctx, form)
         ctx.count(f"A:model:{m['outcome']}")
         if m["outcome"] == "unsupported":
             return
@@ -464,7 +481,7 @@ def catalogue_case(ctx, case):
                 ctx.mismatch(f"{mid}: implementation rejects, model accepts", case, r["msg"][:300], "ok")
         elif r["class"] == "ok":
             ctx.mismatch(f"{mid}: model rejects, implementation accepts", case, "ok", m["err"])
-        elif not formcommon.err_matches(m["err"], r["msg"]):
+        elif not err_matches17(m["err"], r["msg"]):
             ctx.mismatch(f"{mid}: model and implementation locate different errors", case, r["msg"][:300], m["err"])
         elif "row" in expect and m["err"].get("row") not in (None, expect["row"]):
             ctx.mismatch(f"{mid}: model cites another row than the catalogue", case, expect["row"], m["err"])
@@ -491,7 +508,7 @@ def fuzz_case(ctx, case, correspond=False):
         if all(SAFE_HEADER.match(h) for h in hs) and all(set(c) <= {"list_name", "name", "label", "label::en", "label::fr"} for c in form.get("choices") or []):
             st = settings_of(form)
             if set(st) <= {"form_title", "form_id", "version", "default_language"}:
-                m = formcommon.model_call(ctx, cleaned(form))
+                m = model_call17(ctx, cleaned(form))
                 ctx.count(f"B:model:{m['outcome']}")
                 if m["outcome"] == "error":
                     ctx.mismatch("fuzz: model rejects, implementation accepts", case, "ok", m["err"])
